@@ -1,5 +1,6 @@
 import Kopf.Drv.Json
 import Kopf.Model.C13_Peering
+import Kopf.Model.C13_KaFlight
 open Lean
 namespace Kopf.Drv.C13
 open Kopf.C13
@@ -92,6 +93,21 @@ def snapshot (s : State) (ids : List Identity) : Json :=
       Json.mkObj [("alive", .bool o.alive), ("paused", .bool o.paused), ("prio", jInt o.prio),
                   ("sleeping", .bool o.sleeping), ("exiting", .bool o.exiting), ("inflight", jOptInt o.inflight)])))))]
 
+/-- a label of the in-flight layer: `["kaIssue", i]`, `["kaLand", i]`, or a label of `step` -/
+def klabelOf? (j : Json) : Option KLabel := do
+  match ← jArr? j with
+  | [.str "kaIssue", i] => some (.kaIssue (← jStr? i))
+  | [.str "kaLand", i] => some (.kaLand (← jStr? i))
+  | _ => (labelOf? j).map KLabel.base
+
+/-- what the tie compares after every label: per identity the record on the server (`null` = absent) and the stamp of the
+    regular keep-alive in flight (`null` = none) -/
+def ksnapshot (ks : KState) (ids : List Identity) : Json :=
+  Json.mkObj [("now", jInt ks.s.now),
+    ("recs", Json.mkObj (ids.map (fun i => (i, match ks.s.status.find? (fun e => e.1 == i) with
+                                               | some e => recJson e.2 | none => .null)))),
+    ("flight", Json.mkObj (ids.map (fun i => (i, jOptInt (ks.flight i)))))]
+
 def handle : DrvHandler := fun op args =>
   match op, args with
   | "C13.decide", [j] => do
@@ -156,6 +172,19 @@ def handle : DrvHandler := fun op args =>
           | none => .arr #[.str "rejected", .num (JsonNumber.fromNat k)]
           | some s' => go s' (k + 1) (snapshot s' ids :: acc) rest
       some (go init 0 [] ls)
+  | "C13.kaflight", [u, ids, labels] => do
+      -- a label list of the in-flight layer run by `kstep` (what the code does) from `kinit`: after every label the records
+      -- and the requests in flight; a label that is not enabled ends the run (`rejected` + its index)
+      let u ← jInt? u
+      let ids ← jStrList? ids
+      let ls ← (← jArr? labels).mapM klabelOf?
+      let rec goK (ks : KState) (k : Nat) (acc : List Json) : List KLabel → Json
+        | [] => ok (.arr acc.reverse.toArray)
+        | l :: rest =>
+          match kstep u ks l with
+          | none => ok (.arr ((Json.arr #[.str "rejected", .num (JsonNumber.fromNat k)] :: acc).reverse.toArray))
+          | some ks' => goK ks' (k + 1) (ksnapshot ks' ids :: acc) rest
+      some (goK kinit 0 [] ls)
   | _, _ => none
 
 end Kopf.Drv.C13
